@@ -84,6 +84,8 @@ def blockwise_err(project, wa, wb):
             db = [db[q] for q in perm]
             rb = rb.reshape(int(np.prod(db)), -1)
         t = [max(x, y) for x, y in zip(da, db)]
+        if int(np.prod(t)) > project.MAX_JOINT_DIM:
+            return None
         worst = max(worst, float(np.max(np.abs(project.embed(ra, da, t) - project.embed(rb, db, t)))))
     return worst
 
